@@ -8,6 +8,8 @@ pub mod c12;
 pub mod c15;
 pub mod c16;
 pub mod c17;
+pub mod c18;
+pub mod c19;
 
 pub fn lookup(id: &str) -> Option<fn(&Run)> {
     Some(match id {
@@ -20,6 +22,8 @@ pub fn lookup(id: &str) -> Option<fn(&Run)> {
         "C15" => c15::run,
         "C16" => c16::run,
         "C17" => c17::run,
+        "C18" => c18::run,
+        "C19" => c19::run,
         _ => return None,
     })
 }
